@@ -343,6 +343,12 @@ func scaleBigFile(c *Config, n int, disk bool, shape string) {
 	var pre []bdOp
 	pre = append(pre, bdOp{kind: "consume", copy: 0, author: author(), tick: 0, chs: []bdChange{{kind: "ins", name: 1, lines: n}}})
 	periods := []int{64, 63, 65, 17, 1024, 255, 4097}
+	// the number of runs stays in the thousands: longer periods for the longer files
+	mult := 1
+	if n > 20000 {
+		mult = n / 10000
+		periods = []int{64*mult + 1, 63 * mult, 65*mult - 1, 1024, 4097, 65537, 32767}
+	}
 	switch shape {
 	case "asc": // edits walk from the head of the file to its tail
 		periods = []int{n/50 + 1}
@@ -407,7 +413,7 @@ func scaleBigFile(c *Config, n int, disk bool, shape string) {
 			newl = l - k + m
 		default:
 			p := []int{31, 32, 33, 127, 129, 511, 2049}[rng.Intn(7)]
-			ds, newl = periodicEdit(l, p*(1+rng.Intn(4)), rng.Intn(p))
+			ds, newl = periodicEdit(l, p*(1+rng.Intn(4))*mult+rng.Intn(2), rng.Intn(p))
 		}
 		do(modOp(i, author(), t, 1, l, ds, newl))
 	}
@@ -446,7 +452,10 @@ func scaleManyFiles(c *Config, nf int, disk bool) {
 		return c08.AuthorMissing
 	}
 	var pre []bdOp
-	const batch = 500
+	batch := 500
+	if nf/8 > batch {
+		batch = nf / 8
+	}
 	tick := 0
 	for lo := 1; lo <= nf; lo += batch {
 		o := bdOp{kind: "consume", copy: 0, author: author(), tick: tick}
